@@ -19,7 +19,7 @@ ASSUMPTIONS = ["reference = sum of scipy.stats / docstring log-densities of all 
 
 @st.composite
 def program_cases(draw, tier="quick"):
-    spec = draw(graphs.graph_spec(max_dim=4 if tier == "quick" else 6))
+    spec = draw(graphs.graph_spec(max_dim=4 if tier == "quick" else 6, allow_far=True))
     names = graphs.var_names(spec)
     fixed_mask = draw(st.lists(st.booleans(), min_size=len(names), max_size=len(names)))
     fixed = [n for n, f in zip(names, fixed_mask) if f]
@@ -170,7 +170,7 @@ def run_program(c, rec):
 
 @st.composite
 def posterior_cases(draw, tier="quick"):
-    spec = draw(graphs.graph_spec(max_hypers=0, max_latents=1, max_data=3, max_dim=4,
+    spec = draw(graphs.graph_spec(allow_far=True, max_hypers=0, max_latents=1, max_data=3, max_dim=4,
                                   latent_fams=["Gaussian", "GMRF", "LMRF", "CMRF", "Laplace", "Normal"]))
     return {"graph": spec, "route": draw(st.sampled_from(["joint_kw", "joint_pos", "problem_init", "problem_set_data"])),
             "x2": draw(gen.vec(spec["latents"][0]["dim"], -1, 1))}
